@@ -73,34 +73,84 @@ func normText(v string) string {
 	return key + strings.ToLower(v)
 }
 
-// sameUpToRespelling: the value texts of the accepted string e and of the canonical re-marshalling c agree as
-// multisets, except that e may carry explicitly written empty / zero optional values that c omits.
+// fragTexts: prefix and the fragments of a hash string ('$'-separated), each as the list of its normalised members
+// (','-separated); one trailing delimiter dropped.
+func fragTexts(s string) (string, [][]string) {
+	pre, body := "", s
+	if strings.HasPrefix(s, "$") {
+		if i := strings.IndexAny(s[1:], "$,"); i > 0 {
+			pre, body = s[:i+2], s[i+2:]
+		}
+	} else if strings.HasPrefix(s, "_") {
+		pre, body = "_", s[1:]
+	}
+	if strings.HasSuffix(body, "$") || strings.HasSuffix(body, ",") {
+		body = body[:len(body)-1]
+	}
+	var out [][]string
+	for _, frag := range strings.Split(body, "$") {
+		var ms []string
+		for _, v := range strings.Split(frag, ",") {
+			ms = append(ms, normText(v))
+		}
+		out = append(out, ms)
+	}
+	return pre, out
+}
+
+// sameUpToRespelling: the accepted string e and the canonical re-marshalling c have the same prefix and the same
+// fragments in the same order, a fragment being the multiset of its members (the order inside a group is free),
+// except that e may carry explicitly written empty / zero optional values (as members or whole fragments) that c
+// omits.  Which delimiter separates two values is NOT free: "m=1$t=2" is not a respelling of "m=1,t=2".
 func sameUpToRespelling(e, c string) (bool, string) {
-	te, tc := valueTexts(e), valueTexts(c)
-	cnt := map[string]int{}
-	for _, t := range tc {
-		cnt[t]++
+	pe, fe := fragTexts(e)
+	pc, fc := fragTexts(c)
+	if pe != pc {
+		return false, fmt.Sprintf("prefix %q of the accepted string, %q in the canonical marshalling", pe, pc)
 	}
-	var extra []string
-	for _, t := range te {
-		if cnt[t] > 0 {
-			cnt[t]--
-		} else {
-			extra = append(extra, t)
-		}
-	}
-	for t, n := range cnt {
-		if n > 0 && t != "" {
-			return false, fmt.Sprintf("canonical text %q is not in the accepted string", t)
-		}
-	}
-	for _, t := range extra {
+	removable := func(t string) bool {
 		v := t
 		if i := strings.IndexByte(t, '='); i >= 0 {
 			v = t[i+1:]
 		}
-		if !(v == "" || v == "0") {
-			return false, fmt.Sprintf("text %q of the accepted string is not in the canonical marshalling", t)
+		return v == "" || v == "0"
+	}
+	j := 0
+	for _, ef := range fe {
+		if j < len(fc) {
+			cnt := map[string]int{}
+			for _, t := range fc[j] {
+				cnt[t]++
+			}
+			ok := true
+			for _, t := range ef {
+				if cnt[t] > 0 {
+					cnt[t]--
+				} else if !removable(t) {
+					ok = false
+				}
+			}
+			for _, n := range cnt {
+				if n > 0 {
+					ok = false
+				}
+			}
+			if ok {
+				j++
+				continue
+			}
+		}
+		for _, t := range ef {
+			if !removable(t) {
+				return false, fmt.Sprintf("fragment %q of the accepted string has no counterpart at this place of the canonical marshalling %q", strings.Join(ef, ","), c)
+			}
+		}
+	}
+	for ; j < len(fc); j++ {
+		for _, t := range fc[j] {
+			if t != "" {
+				return false, fmt.Sprintf("canonical fragment %q is not in the accepted string", strings.Join(fc[j], ","))
+			}
 		}
 	}
 	return true, ""
